@@ -70,4 +70,15 @@ func init() {
 		},
 		Components: cliComponents, QuickMS: 40000, ThoroughMS: 1500000,
 	}
+	cfgs["C19"] = &propCfg{
+		ID: "C19", Engine: "cli", Level: "exploration",
+		Rule: "scenario = (directory tree: nesting, hidden files/dirs, unknown extensions, empty / library-rejected / >32KiB files, symlinks to files and directories, hard links, modes; invocation shape from the README's grammar: file->stdout/file/dir, many files->dir, directory with/without trailing slash, -r, in place, stdin, --bundle to file/stdout (JS and non-JS, mixed types), --sync, --match/--include/--exclude (glob and ~regexp), --type, --ext, -a, -q/-v (sequential path), minifier option flags, refused invocations; two worker schedule tapes; optionally one injected errno). The real cmd/minify runs under the os facade; afterwards the file system, stdout and exit status are compared with a model whose contents come from library calls of the same tree. Under an injected errno only 'no other file modified' and 'inputs not harmed' are judged. evaluations = child runs; distinct_nontrivial = distinct worker schedules of judged runs plus runs in which the injected error actually fired.",
+		Assumptions: []string{
+			"the model covers only invocation shapes whose semantics cmd/minify/README.md states; shapes it does not pin (two files mapping to one destination, several files to stdout, symlinked directory as single input) are generated but not judged (counter scenarios_not_judged_undocumented_shape)",
+			"expected bytes = library call of the same tree with the options the flags stand for; a legitimate change of minifier output cannot raise an alarm",
+			"what a destination contains after an injected I/O error, and the exit status then, are not in the statement and not judged",
+			"--watch, ownership preservation and Windows paths are not exercised",
+		},
+		Components: cliComponents, QuickMS: 35000, ThoroughMS: 1500000,
+	}
 }
